@@ -101,4 +101,18 @@ TEXTS = {
   "note": "Trusted: Lean kernel, the textbook state machine Rules.apply (spec), model (validated on every explored position), harness/driver. Counters are Nat in the model (u16 in the code).",
   "technique": "Lean 4 proof (one-step refinement by move kind + induction over games) + differential correspondence against an independent state machine",
  },
+ "C08": {
+  "level": "Lean theorems over the UCI model: a refused position command leaves the session position exactly as it was; on success the new position depends on the command alone; a move string is accepted "
+           "iff it is the coordinate notation of a legal move, the move made is that legal move, and in a legal-game position the (from,to,promotion) triple identifies it uniquely (via C01); "
+           "the accepted game is the fold of make_move over those moves. Tied to the code: the real uci_loop over generated sessions, session position after every command vs model and vs the rules spec.",
+  "note": "Trusted: Lean kernel, UCI model (validated per line and per executed command), harness/driver, C01/C03 for the meaning of 'legal'. Assumes valid FEN arguments.",
+  "technique": "Lean 4 proof (definitional atomicity, find? lemmas, induction over the move list, nodup transfer from C01) + differential correspondence",
+ },
+ "C15": {
+  "level": "Lean theorems over the UCI model in which every slice / index of the token parser is a partial operation whose failure is a panic outcome: for ALL token lists the parser never panics; "
+           "no session of any length (valid FEN arguments) makes the command loop panic, and the loop has ended when the input has; an isready line is answered readyok in every live state; quit ends the loop. "
+           "Tied to the code: real parser verdict per generated line (incl. junk numbers, missing values, reordered setoption), real uci_loop per session; real binary for liveness, exit status and time-to-exit.",
+  "note": "Trusted: Lean kernel, UCI model (validated per line), harness/driver, OS process handling for the process-level part. read_line on invalid UTF-8 is handled in the code (skip) but not in the model (ASCII sessions).",
+  "technique": "Lean 4 proof (case analysis of the parser with explicit partial slices; induction over sessions) + differential correspondence + process-level runs",
+ },
 }
